@@ -464,8 +464,8 @@ func checkC10(c *Ctx, r *Report) error {
 			raceNote = fmt.Sprintf("race-detector build of the harness: %.1fs", time.Since(t0).Seconds())
 		}
 	}
-	n := TierN(c.Tier, 240, 2000, 800)
-	rounds := TierN(c.Tier, 2, 6, 3)
+	n := TierN(c.Tier, 240, 4000, 800)
+	rounds := TierN(c.Tier, 2, 10, 3)
 	cells := TierN(c.Tier, 16, 40, 24)
 	common := []string{"-repo", c.Repo, "-tmp", tmp, "-seed", fmt.Sprint(c.Seed), "-goroutines", "16"}
 	plain, err := runChildren(self, os.Environ(), names,
@@ -525,7 +525,9 @@ func checkC10(c *Ctx, r *Report) error {
 				if !ok {
 					return fmt.Errorf("cannot parse CacheSDF2.String(): %q", o.res.CacheInfo)
 				}
-				addCacheCase(o.res.CacheIDs, reads, hits)
+				if len(o.res.CacheIDs) <= 12000 { // larger call sequences are checked below in Go only (size of the Coq term)
+					addCacheCase(o.res.CacheIDs, reads, hits)
+				}
 				distinct := map[int]bool{}
 				for _, x := range o.res.CacheIDs {
 					distinct[x] = true
